@@ -344,15 +344,127 @@ def ancillary(rng, k=0):
     return 'scen:ancillary', u.lines(), ops, meta_of(ops, u.attr_ids(), setup)
 
 
+def propulsion_batch(rng, k=0):
+    """one publication carries a change of a ship attribute the velocity modifier does not care about together
+    with a change of the module's speed factor (an implant whose single effect has both modifiers)"""
+    A = AttrId
+    K = 1000
+    u = U()
+    u.u.custom = True
+    for a in (A.mass, A.max_velocity, A.signature_radius, A.speed_factor, A.speed_boost_factor, A.mass_addition,
+              A.signature_radius_bonus, A.armor_hp, K):
+        u.attr(int(a))
+    eff = int([EffectId.module_bonus_afterburner, EffectId.module_bonus_microwarpdrive][k % 2])
+    u.effect(eff, EC.active)
+    other = int([A.armor_hp, A.signature_radius][(k // 2) % 2])
+    mine = int([A.speed_factor, A.speed_boost_factor][(k // 4) % 2])
+    u.effect(2001, EC.passive, [U.mod(F.item, D.ship, other, OP.post_mul, K),
+                                U.mod(F.domain, D.ship, mine, OP.post_mul, K)])
+    u.type(3100, 50, int(TC.ship), {int(A.mass): 1000, int(A.max_velocity): 100, int(A.signature_radius): 64,
+                                    int(A.armor_hp): 1000})
+    u.type(3250, 51, int(TC.module), {int(A.speed_factor): 128, int(A.speed_boost_factor): 1024,
+                                      int(A.mass_addition): 512, int(A.signature_radius_bonus): 400},
+           [eff], default=eff)
+    u.type(3500, 52, int(TC.implant), {K: 2}, [2001])
+    ops = base_world(1) + ['new 10 ship 3100 1 0', 'new 12 modmid 3250 3 0', 'new 20 implant 3500 1 0',
+                           'slot 1 ship 10', 'rappend 1 mid 12']
+    setup = len(ops)
+    V = int(A.max_velocity)
+    ops += ['get 10 %d' % V, 'get 10 %d' % other, 'get 12 %d' % mine, 'sadd 1 implants 20', 'get 10 %d' % V,
+            'srm 1 implants 20', 'get 10 %d' % V]
+    return 'scen:propbatch', u.lines(), ops, meta_of(ops, u.attr_ids(), setup)
+
+
+def rejected_assignment(rng, k=0):
+    """an assignment to an occupied single slot (ship / charge) is rejected because the new item belongs
+    elsewhere; the old occupant is put back. Effects of the occupant and of its holder that are resolved
+    through the slot ('ship' domain with item filter, 'other' domain) must be what they were"""
+    X, Y, K = 1010, 1011, 1000
+    u = U()
+    for a in (X, Y, K):
+        u.attr(a)
+    u.effect(2001, EC.passive, [U.mod(F.item, D.ship, X, OP.post_percent, K)])       # hull bonus on itself
+    u.effect(2002, EC.passive, [U.mod(F.item, D.other, Y, OP.post_percent, K)])      # module -> its charge
+    u.effect(2003, EC.passive, [U.mod(F.item, D.other, X, OP.post_percent, K)])      # charge -> its module
+    u.type(3100, 50, int(TC.ship), {X: 100, K: 50}, [2001])
+    u.type(3200, 51, int(TC.module), {X: 100, K: 20}, [2002])
+    u.type(3300, 52, int(TC.charge), {Y: 10, K: 10}, [2003])
+    same_ss = k % 2 == 0
+    ops = ['solsys 1', 'solsys 2', 'fit 1 1', 'fit 2 2', 'source 1 1', 'source 2 1', 'ssadd 1 1',
+           'ssadd %d 2' % (1 if same_ss else 2),
+           'new 10 ship 3100 1 0', 'new 11 ship 3100 1 0', 'new 12 modhigh 3200 2 0', 'new 13 modhigh 3200 2 0',
+           'new 30 charge 3300 1 0', 'new 31 charge 3300 1 0', 'slot 1 ship 10', 'slot 2 ship 11',
+           'rappend 1 high 12', 'rappend 2 high 13', 'charge 12 30', 'charge 13 31']
+    setup = len(ops)
+    ops += ['get 10 %d' % X, 'get 30 %d' % Y, 'get 12 %d' % X,
+            'slot 1 ship 11', 'get 10 %d' % X, 'get 11 %d' % X,        # rejected: 11 is the ship of fit 2
+            'charge 12 31', 'get 30 %d' % Y, 'get 12 %d' % X, 'get 31 %d' % Y,   # rejected: 31 sits in module 13
+            'slot 2 ship 10', 'get 11 %d' % X, 'charge 13 30', 'get 31 %d' % Y]
+    return 'scen:rejected', u.lines(), ops, meta_of(ops, u.attr_ids(), setup)
+
+
+def autocharge_state(rng, k=0):
+    """an autocharge (spawned by the type's ammo attribute) whose own effect is state dependent: it must
+    follow the state of the module that carries it"""
+    X, K = 1010, 1000
+    AM = int(AttrId.ammo_loaded)
+    u = U()
+    for a in (X, K, AM):
+        u.attr(a)
+    ta = int(EffectId.target_attack)
+    u.effect(ta, EC.target)
+    cat = [EC.active, EC.online, EC.overload][k % 3]
+    u.effect(2001, cat, [U.mod(F.item, D.ship, X, OP.post_percent, K)])
+    u.type(3100, 50, int(TC.ship), {X: 100})
+    u.type(3200, 51, int(TC.module), {AM: 3300}, [ta], default=ta)
+    u.type(3300, 52, int(TC.charge), {K: 50}, [2001], default=2001 if cat == EC.active else None)
+    ops = base_world(1) + ['new 10 ship 3100 1 0', 'new 12 modhigh 3200 %d 0' % rng.choice([1, 2]), 'slot 1 ship 10']
+    setup = len(ops)
+    ops += ['rappend 1 high 12', 'get 10 %d' % X, 'state 12 3', 'get 10 %d' % X, 'state 12 4', 'get 10 %d' % X,
+            'state 12 2', 'get 10 %d' % X, 'state 12 1', 'get 10 %d' % X, 'state 12 3', 'source 1 -', 'source 1 1',
+            'get 10 %d' % X]
+    return 'scen:autostate', u.lines(), ops, meta_of(ops, u.attr_ids(), setup)
+
+
+def burst_nobase(rng, k=0):
+    """a command burst that gives nothing on its own (buff id 0 / absent): only its charge names a buff.
+    Activated without charge, charged while running, the charge taken out while running, stopped, removed"""
+    BID, BVAL = int(AttrId.warfare_buff_1_id), int(AttrId.warfare_buff_1_value)
+    T1, K1, V = 1010, 1000, 1002
+    u = U()
+    for a in (T1, K1, V):
+        u.attr(a)
+    u.attr(BID, default=Fraction(0) if k % 2 == 0 else None)
+    u.attr(BVAL, default=Fraction(0) if k % 2 == 0 else None)
+    burst = int(BUFF_EFFECTS[0])
+    u.effect(burst, EC.active)
+    u.effect(2001, EC.passive, [U.mod(F.item, D.other, BID, OP.post_assign, K1),
+                                U.mod(F.item, D.other, BVAL, OP.post_assign, V)])
+    u.buff(10, F.item, T1, OP.post_percent, AG.maximum)
+    u.type(3100, 50, int(TC.ship), {T1: 1000})
+    u.type(3200, 51, int(TC.module), {}, [burst], default=burst)
+    u.type(3300, 52, int(TC.charge), {K1: 10, V: 20}, [2001])
+    fleet = (k // 2) % 2 == 0
+    ops = base_world(2) + ['new 10 ship 3100 1 0', 'new 11 ship 3100 1 0', 'new 12 modhigh 3200 3 0',
+                           'new 30 charge 3300 1 0', 'slot 1 ship 10', 'slot 2 ship 11']
+    if fleet:
+        ops += ['fladd 1 1', 'fladd 1 2']
+    setup = len(ops)
+    ops += ['rappend 1 high 12', 'get 10 %d' % T1, 'charge 12 30', 'get 10 %d' % T1, 'get 11 %d' % T1,
+            'charge 12 -', 'get 10 %d' % T1, 'state 12 2', 'rremove 1 high item 12', 'slot 1 ship -',
+            'slot 1 ship 10', 'get 10 %d' % T1, 'slot 2 ship -']
+    return 'scen:burstnobase', u.lines(), ops, meta_of(ops, u.attr_ids(), setup)
+
+
 SCENARIOS = [cap_moves, resist_moves, chain_over_projection, burst_charge, buff_tie, retarget_reload, slot_index,
-             propulsion, ancillary]
+             propulsion, ancillary, propulsion_batch, rejected_assignment, autocharge_state, burst_nobase]
 
 
 def scenarios(rng, tier):
     n = 3 if tier == 'quick' else 60
     out = []
     for fn in SCENARIOS:
-        for k in range(6 if fn is burst_charge and n < 6 else n):
+        for k in range(max(n, {burst_charge: 6, propulsion_batch: 4, burst_nobase: 4}.get(fn, n))):
             name, ul, ops, meta = fn(rng, k)
             out.append(('%s%d' % (name, k), ul, ops, meta))
     return out
